@@ -295,6 +295,10 @@ func c05Local(run *ev.Run, d *ctl.Daemon, dir string, sp *c05LocalSpec) {
 	}
 	deadline := time.Now().Add(60 * time.Second)
 	for _, rd := range readers {
+		if rd.pos > total {
+			// offset beyond the output of a unit that was stopped early: outside 0..size, not judged
+			continue
+		}
 		for {
 			got, eof, bad, first, e := rd.snap()
 			if first != "" && !strings.HasPrefix(first, "Streaming results") {
